@@ -1,7 +1,7 @@
 (** Protocol operations for C07 (see Lib/Val.v, Run/PbcmplOps.v). *)
 From Coq Require Import ZArith List Bool String.
 From Low Require Import Lib.BitSeq Lib.Bytes Lib.Val Model.Pbcmpl Model.PbcmplWalk Model.PbcmplEncErr Spec.PbcmplSpec Spec.PbcmplWalkSpec
-  Run.PbcmplOps Run.PbcmplWalkOps.
+  Run.PbcmplOps Run.PbcmplWalkOps Run.PbcmplSessionOps.
 Import ListNotations.
 Open Scope string_scope.
 Open Scope Z_scope.
@@ -70,6 +70,44 @@ Definition ops_C07 : list opdef := [
                || val_eqb (v_stream_spec k EUnexpectedEOF (List.concat cs) (term_of tk wl)) obs
            | _, _, _, _ => false end
        | _ => false end |};
+  (* [kind, stream bytes, chunk pattern, terminal kind, bufio size]: as pbcmpl.Unmarshal/stream with the reader
+     wrapped in bufio.NewReaderSize(reader, size) -> [[n, ver, errclass, payload] per call until the first error] *)
+  {| op_name := "pbcmpl.Unmarshal/bufio";
+     op_run := fun a => match a with
+       | [k; s; pat; tk; bsz] => match as_z k, as_zs s, as_zs pat, as_z tk, as_z bsz with
+           | Some k, Some s, Some pat, Some tk, Some bsz =>
+               if kind_ok k && bytes_okb s && all_pos pat && (0 <=? bsz) then v_bufstream_model k (chunks_of pat s, term_of tk false)
+               else VBad
+           | _, _, _, _, _ => VBad end
+       | _ => VBad end;
+     op_spec := fun a obs => match a with
+       | [k; s; pat; tk; bsz] => match as_z k, as_zs s, as_z tk with
+           | Some k, Some s, Some tk =>
+               val_eqb (v_bufstream_spec k EEOF s (term_of tk false)) obs
+               || val_eqb (v_bufstream_spec k EUnexpectedEOF s (term_of tk false)) obs
+           | _, _, _ => false end
+       | _ => false end |};
+  (* histories: [kind, [[[hasver, ver, payload], [[accept, fail], ...]], ...]]: several Marshal calls in ONE process,
+     each into its own scripted writer -> per call what pbcmpl.Marshal/faulty reports *)
+  {| op_name := "pbcmpl.Marshal/session";
+     op_run := fun a => match a with
+       | [k; cs] => match as_z k, as_list cs with
+           | Some k, Some cs =>
+               match opt_all (map as_mcall cs) with
+               | Some cs =>
+                   if kind_ok k && forallb (fun c => script_ok (snd c) [32; zlen (k_enc k (snd (fst c)))]) cs
+                   then VL (map (fun c => v_marshal_model k (snd c) (fst c)) cs) else VBad
+               | None => VBad end
+           | _, _ => VBad end
+       | _ => VBad end;
+     op_spec := fun_spec (fun a => match a with
+       | [k; cs] => match as_z k, as_list cs with
+           | Some k, Some cs =>
+               match opt_all (map as_mcall cs) with
+               | Some cs => VL (map (fun c => v_marshal_spec k (snd c) (fst c)) cs)
+               | None => VBad end
+           | _, _ => VBad end
+       | _ => VBad end) |};
   (* widening: [stream bytes, chunk pattern, terminal kind, with last] -> arbitrary bytes walked with
      ReadHeader + io.ReadFull: [[[n, errclass, ver, hsize, bsize, body bytes, refused] per step], left] *)
   {| op_name := "pbcmpl.Walk/bytes";
